@@ -208,6 +208,23 @@ pub fn run_replay(a: &Args) {
                         mism.push(json!({"step":i,"op":"reset","got":"panic"}));
                     }
                 }
+                "avail" if !concat => {
+                    let d = db.as_ref().unwrap();
+                    let r = guard(|| d.available().map(|n| n.as_str().to_string()).collect::<Vec<String>>());
+                    match r {
+                        Ok(list) => {
+                            for (k, real) in NAMES.iter() {
+                                let got = list.iter().any(|x| x == real) as i64;
+                                let exp = st["names"][*k].as_i64().unwrap_or(0);
+                                if got != exp {
+                                    mism.push(json!({"step":i,"op":"available","name":k,"expected_listed":exp,"listed":got}));
+                                }
+                            }
+                            steps.push(json!({"i":i,"op":"avail","list":list}));
+                        }
+                        Err(_) => mism.push(json!({"step":i,"op":"available","got":"panic"})),
+                    }
+                }
                 "replace" | "add" => write_version(&root, name_idx(st["n"].as_str().unwrap()), st["v"].as_i64().unwrap()),
                 "remove" => {
                     let _ = std::fs::remove_file(root.join(NAMES[name_idx(st["n"].as_str().unwrap())].1));
@@ -294,6 +311,13 @@ pub fn run_stress(a: &Args) {
                             // reset: the hook event itself carries the thread
                             if guard(|| db.reset()).is_err() {
                                 panicked.lock().unwrap().push("reset panicked".into());
+                            }
+                            continue;
+                        }
+                        if !concat && rng.chance(1, 9) {
+                            // the hook events carry the thread and the names returned
+                            if guard(|| db.available().count()).is_err() {
+                                panicked.lock().unwrap().push("available() panicked".into());
                             }
                             continue;
                         }
@@ -408,6 +432,15 @@ pub fn run_stress(a: &Args) {
                 "names_reset" => json!({"ev":"names_reset","t":t}),
                 "slow_begin" => json!({"ev":"slow_begin","t":t,"n":n}),
                 "names_w_begin" => json!({"ev":"names_w_begin","t":t,"n":n}),
+                "names_avail_begin" => json!({"ev":"names_avail_begin","t":t}),
+                "names_avail" => {
+                    let listed: Vec<&str> = e.query.split(',').collect();
+                    let mut m = serde_json::Map::new();
+                    for (k, real) in NAMES.iter() {
+                        m.insert(k.to_string(), json!(listed.iter().any(|x| x == real) as i64));
+                    }
+                    json!({"ev":"names_avail","t":t,"names":Value::Object(m),"count":e.a,"refreshed":e.b})
+                }
                 "inserted" => json!({"ev":"slow","t":t,"n":n,"kind":"inserted","unsorted":e.b}),
                 k => json!({"ev":"slow","t":t,"n":n,"kind":k}),
             };
